@@ -23,6 +23,7 @@ CHECKS = {
     "C16": hist("After every step the kernel's epoll table (/proc/self/fdinfo) minus polling's own entries must equal the model's set of enabled fd registrations: keys for all, interest/mode bits and fd for Generic sources; released fds are re-inserted.", "model-based property-based testing with a kernel oracle (/proc/self/fdinfo epoll table) after every generated step"),
     "C03": ("sched", "exploration", "schedule exploration: generated thread interleavings at yield-site granularity (cooperative scheduler over the hook, proptest-generated + bounded-exhaustive DFS schedules) plus single-thread history PBT; logical-clock oracle", "Actor threads with ping/clone/drop programs against a dispatching loop thread; the interleaving of every eventfd write, drain read and handle drop is the generated input; every ping served by a later callback, at most one callback per dispatch, no callback without a ping that can have landed after the previous drain, clean self-removal when the last handle goes, no spinning afterwards. Plus ping histories through the history machine.", "schedules are explored at the granularity of the hook's yield sites on x86-TSO with the real atomics; weaker memory orderings and preemption inside a site-free region are out of reach; blocked threads are detected through /proc", "DESIGN.md sections 3.4 and 4 C03"),
     "C04": ("sched", "exploration", "schedule exploration (generated interleavings of sender threads and the loop at enqueue / wake / wake-on-drop / try_recv / re-wake sites) + history PBT + batch-limit family; per-sender FIFO reference", "Per sender delivered == sent-Ok in order exactly once, one Closed after everything and only after every sender is gone, nothing after it, settle points show that no message stays queued without a pending wake-up, blocking sends complete while the loop dispatches (blocked senders detected via /proc, decided by state), queue lengths around the 1024 batch limit drain without external wake-up. Known finding F6 (sync_channel(0)) is listed and steered around.", "as C03; a stranded sender is decided by state (8 further dispatches, every unfinished sender asleep in the kernel, nothing delivered), never by a timeout alone", "DESIGN.md sections 3.4 and 4 C04"),
+    "C10": ("sched", "exploration", "schedule exploration (generated interleavings of waker threads against the executor's enqueue / flag swap / eventfd write / flag clear / dequeue / re-wake / drop sites, incl. mid-poll) + batch-limit family + scripted StreamSource", "Scripted non-Send futures: every scheduled future polled, a poll after every wake of a pending task, polls and drops only on the loop thread, each Ready(v) delivered exactly once, every future dropped exactly once when the executor goes (checked before the Scheduler goes), ExecutorDestroyed afterwards; 0..3100 ready tasks drain over consecutive dispatches without external wake-up, scheduling from callbacks and futures; stream items in order, one None, then removal. Known finding F7 (wake in flight while the executor is dropped) is listed and steered around.", "as C03; async-task's own atomics have no yield sites; windows that exist only in changed code have no site either", "DESIGN.md sections 3.4 and 4 C10"),
     "C11": ("sched", "exploration", "schedule exploration (generated interleavings of stop/wakeup/waker.wake against run()/block_on() at every yield site, incl. mid-poll) + bounded-exhaustive DFS of tiny configurations", "Lost wake-ups and lost stops are decided by state: the loop thread provably asleep in the poller with an unserved wake-up / wake over 300 scheduling rounds; stop visible at the loop condition must end the loop; run/block_on return values need a cause.", "as C03; 'promptly' is never measured as a duration", "DESIGN.md sections 3.4 and 4 C11"),
     "C18": ("transient", "exploration", "model-based property-based testing of TransientSource call sequences + bounded-exhaustive enumeration of all protocol-conforming sequences (thorough: up to length 6), kernel epoll table and timer heap as ground truth", "Instrumented fd and timer children under a top-level and a composite parent; reference machine per child (Fresh/Kept/Disabled/Gone); after every step child registration flag == kernel table / timer heap == model; no double register/unregister, no drop while registered, forwarding only from the current child, only Continue/Reregister returned.", "only protocol-conforming sequences are generated (the docs warn about leaks otherwise); module written by a sub-agent, reviewed", "DESIGN.md section 4 C18"),
     "C19": ("signals", "exploration", "model-based property-based testing of signal-mask histories in a single-threaded process (proptest, reference model of mask / pending sets / handler counts)", "Histories of new/add/remove/set/raise/insert/dispatch/drop; after every op the real thread mask, sigpending() and counting handlers are compared with the model; dispatch results compared with pending configured instances incl. siginfo fields.", "single-threaded check process; Linux standard-signal semantics as stated in the module header", "DESIGN.md section 4 C19"),
